@@ -21,6 +21,27 @@ def sh(cmd, cwd=None, timeout=1800):
     return p.returncode, (p.stdout + p.stderr)
 
 
+def apply_patch(tree, patch):
+    """git apply; when the patch's copy of the generated peg.peg.go no longer applies (the tree moved on), apply the
+    source part and regenerate peg.peg.go with the patched generator, twice, as the maintainers do."""
+    rc, out = sh(['git', '-C', tree, 'apply', patch])
+    if rc == 0:
+        return True, 'applied'
+    rc, out = sh(['git', '-C', tree, 'apply', '--exclude=peg.peg.go', patch])
+    if rc != 0:
+        return False, out
+    tmp = '/tmp/seedpeg_%d' % os.getpid()
+    for _ in range(2):
+        rc, out = sh(['go', 'build', '-o', tmp, '.'], cwd=tree)
+        if rc != 0:
+            return False, out
+        rc, out = sh([tmp, '-inline', '-switch', 'peg.peg'], cwd=tree, timeout=900)
+        if rc != 0:
+            return False, out
+    os.remove(tmp)
+    return True, 'applied without peg.peg.go, which was regenerated'
+
+
 def main():
     name, src = sys.argv[1], sys.argv[2]
     props = sys.argv[3:]
@@ -36,8 +57,9 @@ def main():
     rc, out = sh(['git', '-C', '/repo', 'worktree', 'add', '--detach', wt, 'HEAD'])
     confirm = {}
     try:
-        rc, out = sh(['git', '-C', wt, 'apply', patch])
-        confirm['applies'] = rc == 0
+        okp, how = apply_patch(wt, patch)
+        confirm['applies'] = okp
+        confirm['how_applied'] = how
         rc, out = sh(['go', 'build', './...'], cwd=wt)
         rc1, out1 = sh(['go', 'build', '-o', '/dev/null', '.'], cwd=wt)
         confirm['builds'] = rc1 == 0
@@ -63,9 +85,9 @@ def main():
         for d in ('evidence', 'replays'):
             if os.path.isdir(os.path.join(V, d)):
                 shutil.copytree(os.path.join(V, d), os.path.join(keep, d))
-        rc, out = sh(['git', '-C', '/repo', 'apply', patch])
+        okp, how = apply_patch('/repo', patch)
         try:
-            assert rc == 0, out
+            assert okp, how
             for p in props:
                 rc, out = sh([os.path.join(V, 'bin', 'check'), p, '--tier', 'quick'], cwd=V, timeout=3600)
                 lines = [l for l in out.splitlines() if l.startswith('VIOLATION') or l.startswith('HARNESS') or l.startswith('  ')]
